@@ -939,17 +939,23 @@ class Crystal(object):
         modified = False
         # check the possible vector reductions (edited to handle 2 and 3 dimensions)
         asq = np.dot(self.lattice.T, self.lattice)
-        u = np.around(asq[0, 1] / asq[0, 0])
+
+        def nint(x):
+            # nearest integer, except that ties (|x| = 1/2 to within roundoff) are left alone:
+            # they do not shorten the vector, and roundoff could make us alternate forever
+            return 0 if abs(x) < 0.5 + 1e-8 else np.around(x)
+
+        u = nint(asq[0, 1] / asq[0, 0])
         if u != 0:
             super[0, 1] = -int(u)
             modified = True
         elif self.dim > 2:
-            u = np.around(asq[0, 2] / asq[0, 0])
+            u = nint(asq[0, 2] / asq[0, 0])
             if u != 0:
                 super[0, 2] = -int(u)
                 modified = True
             else:
-                u = np.around(asq[1, 2] / asq[1, 1])
+                u = nint(asq[1, 2] / asq[1, 1])
                 if u != 0:
                     super[1, 2] = -int(u)
                     modified = True
